@@ -5,6 +5,7 @@ scheduler owns every cache read/write (proxy around the backend), every lock ope
 vlib.lockpoints), the file-system calls of write_atomic / compact bundles, and the upstream call (enter + return).
 Stress mode: forked processes with their own app share one cache directory and hammer the same tiles with random
 delays; the upstream log is a shared append-only file."""
+import json
 import os
 import random as _random
 import shutil
@@ -20,7 +21,7 @@ PID = 'C08'
 LEVEL = 'exploration'
 BUDGET_S = {'quick': 50, 'thorough': 700}
 FLOORS = {'quick': {'schedules': 1500, 'contended_schedules': 900, 'responses_judged': 5000, 'sweeps': 900,
-                    'single_fetch_checks': 2000, 'cross_block_probes': 60, 'stress_rounds': 6, 'thread_stress_rounds': 60, 'thread_stress_requests': 1200, 'fault_runs_three_or_more_on_one_meta_tile': 90,
+                    'single_fetch_checks': 2000, 'cross_block_probes': 60, 'stress_rounds': 6, 'thread_stress_rounds': 60, 'thread_stress_requests': 1200, 'stress_rounds_fresh_interpreters': 6, 'fault_runs_three_or_more_on_one_meta_tile': 90,
                     'partial_meta_runs': 80},
           'thorough': {'schedules': 40000, 'contended_schedules': 25000, 'responses_judged': 150000, 'sweeps': 40000,
                        'single_fetch_checks': 60000, 'cross_block_probes': 1500, 'stress_rounds': 120, 'thread_stress_rounds': 1100, 'thread_stress_requests': 22000,
@@ -376,7 +377,7 @@ def gen_cases(run):
     n = run.pick(200, 4200)
     for i in range(n):
         yield {'kind': 'sched', 'i': i}
-    for i in range(run.pick(16, 320)):
+    for i in range(run.pick(28, 400)):
         yield {'kind': 'stress', 'i': i}
     for i in range(run.pick(160, 3000)):
         yield {'kind': 'tstress', 'i': i}
@@ -463,7 +464,7 @@ def run_case(run, case):
 
 # ---- multi-process stress -------------------------------------------------------------------------------------
 
-def stress_child(spec, d, reqs, seed, logpath):
+def stress_child(spec, d, reqs, seed, logpath, start_at=None):
     """runs in a forked child: own app on the shared directory; upstream calls appended to a shared file"""
     rng = _random.Random(seed)
     up = upstream.install()
@@ -477,6 +478,9 @@ def stress_child(spec, d, reqs, seed, logpath):
         time.sleep(rng.choice([0, 0.001, 0.005, 0.02]))
     up.before = before
     bad = []
+    if start_at:
+        # freshly started interpreters need different times to come up: all start their requests at the same moment
+        time.sleep(max(0.0, start_at - time.time()))
     for c in reqs:
         time.sleep(rng.choice([0, 0, 0.001, 0.003]))
         with tm.session():
@@ -511,7 +515,35 @@ def run_stress(run, case):
         os.makedirs(os.path.join(d, 'cache_data'), exist_ok=True)
         pids = []
         pipes = []
-        for p in range(nproc):
+        # half of the rounds start FRESH interpreters (own hash salt, nothing inherited): what independently started server
+        # processes or a seeding tool next to the server look like; the other half forks
+        spawn = case.get('spawn', case['i'] % 2 == 1)
+        if spawn:
+            import subprocess
+            env = dict(os.environ)
+            env.pop('PYTHONHASHSEED', None)
+            procs = []
+            t_start = time.time() + 4.0
+            for p in range(nproc):
+                reqs = [rng.choice(coords) for _ in range(4)]
+                args = {'spec': spec, 'd': d, 'reqs': reqs, 'seed': rng.random() + p, 'logpath': logpath, 'start_at': t_start}
+                procs.append(subprocess.Popen([sys.executable, '-m', 'checks.c08_child', json.dumps(args)], env=env,
+                                              cwd=os.path.dirname(os.path.dirname(os.path.abspath(__file__))),
+                                              stdout=subprocess.PIPE, stderr=subprocess.DEVNULL))
+            problems = []
+            for pr in procs:
+                try:
+                    out, _ = pr.communicate(timeout=180)
+                except subprocess.TimeoutExpired:
+                    pr.kill()
+                    out = b''
+                line = [l for l in out.decode('utf-8', 'replace').splitlines() if l.startswith('C08CHILD ')]
+                if not line:
+                    run.dc('spawned_child_gave_no_report')
+                    continue
+                problems += json.loads(line[-1][len('C08CHILD '):])
+            run.hit('stress_rounds_fresh_interpreters')
+        for p in range(0 if spawn else nproc):
             reqs = [rng.choice(coords) for _ in range(4)]
             r, w = os.pipe()
             pid = os.fork()
@@ -530,7 +562,8 @@ def run_stress(run, case):
             os.close(w)
             pids.append(pid)
             pipes.append(r)
-        problems = []
+        if not spawn:
+            problems = []
         for pid, r in zip(pids, pipes):
             data = b''
             while True:
@@ -561,7 +594,7 @@ def run_stress(run, case):
         for pdesc in problems[:3]:
             kind = 'multiple_fetches' if 'identical upstream' in pdesc else ('exception' if 'child exception' in pdesc else 'wrong_image')
             run.violation({'problem': kind, 'backend': spec['backend'], 'src': spec['src_kind'],
-                           'meta': spec['cache']['meta_size'], 'mode': 'multiprocess_stress'},
+                           'meta': spec['cache']['meta_size'], 'mode': 'multiprocess_stress', 'fresh_interpreters': bool(spawn)},
                           dict(case, spec=spec), pdesc)
     finally:
         shutil.rmtree(d, ignore_errors=True)
@@ -583,11 +616,22 @@ def run_tstress(run, case):
     # variants: plain | flat_linked (single-coloured upstream, tiles are links to one shared colour file that every request
     # for that colour writes) | expired (the tiles exist but are older than the refresh threshold: the re-check under the
     # tile lock has to see what another request stored meanwhile)
-    variant = case.get('variant') or rng.choice(['plain', 'plain', 'flat_linked', 'expired'])
+    variant = case.get('variant') or rng.choice(['plain', 'plain', 'flat_linked', 'expired', 'cache_coverage'])
     if variant == 'flat_linked':
         spec['backend'] = 'file'
         spec['cache']['cache'] = {'type': 'file', 'directory_layout': rng.choice(['tc', 'tms', 'quadkey'])}
         spec['cache']['link_single_color_images'] = rng.choice([True, True, 'hardlink'])
+    elif variant == 'cache_coverage':
+        # the cache itself has a coverage that cuts through meta tiles: tiles outside it are neither loaded nor needed, the
+        # re-check under the lock must still find the meta tile complete
+        spec['backend'] = 'file'
+        gb = spec['grid']['bbox']
+        gw, gh = gb[2] - gb[0], gb[3] - gb[1]
+        cov = [gb[0] + gw * rng.uniform(0.18, 0.32), gb[1] + gh * rng.uniform(0.18, 0.32),
+               gb[2] - gw * rng.uniform(0.18, 0.32), gb[3] - gh * rng.uniform(0.18, 0.32)]
+        spec['cache']['cache'] = {'type': 'file', 'directory_layout': 'tc', 'coverage': {'bbox': cov, 'srs': spec['grid']['srs']}}
+        if spec['cache']['meta_size'] == [1, 1]:
+            spec['cache']['meta_size'] = [2, 2]
     elif variant == 'expired':
         spec['backend'] = 'file'
         spec['cache']['cache'] = {'type': 'file', 'directory_layout': 'tc'}
@@ -605,6 +649,24 @@ def run_tstress(run, case):
         z = min(3, grid.levels - 1)
         nx, ny = grid.grid_sizes[z]
         coords = sorted(set((rng.randrange(nx), rng.randrange(ny), z) for _ in range(rng.randint(3, 6))))
+        if variant == 'cache_coverage':
+            cov = spec['cache']['cache']['coverage']['bbox']
+
+            def inside(c):
+                b = grid.tile_bbox(c)
+                return b[0] >= cov[0] and b[1] >= cov[1] and b[2] <= cov[2] and b[3] <= cov[3]
+
+            def straddles(c):
+                mx, my = spec['cache']['meta_size']
+                x0, y0 = c[0] // mx * mx, c[1] // my * my
+                sib = [(xx, yy, z) for xx in range(x0, min(nx, x0 + mx)) for yy in range(y0, min(ny, y0 + my))]
+                return any(not inside(s_) for s_ in sib)
+            cand = [(x, y, z) for x in range(nx) for y in range(ny) if inside((x, y, z))]
+            edge = [c for c in cand if straddles(c)]
+            if not cand:
+                run.dc('cache_coverage_without_inner_tile')
+                return
+            coords = sorted(set(rng.sample(edge, min(len(edge), 3)) + rng.sample(cand, min(len(cand), 2))))
         FLAT = (31, 120, 200)
         if variant == 'flat_linked':
             import io as _io
